@@ -101,6 +101,10 @@ def run(rep, tier):
     rule_recursion(rep)
     rule_peephole_bounds(rep, idx)
     rule_memory_info(rep, idx)
+
+    def bind(env, lex, func):
+        env['this'] = Obj('xcmp::Driver', {'lexer': lex}, 'driver')
+    robust.rule_handlers(rep, 'R15', idx, 'xcmp', idx.func('xcmp::Driver::runCatchExceptions'), bind)
     from .. import report as _report
     from . import c14, c11
     rep.rule('R12', '"reports a diagnostic and emits nothing": output files are opened only by the designated writer, and nothing can be '
